@@ -58,7 +58,9 @@ PROPS = {
     },
     'C32': {
         'units': [{'unit': 'c32_merge', 'labels': [r'C32\.', r'^(?!.*\[C3[12]\.).*$']}],
-        'replays': [{'for': r'C32\.', 'driver': 'replay/c32', 'bin': 'replay', 'thorough': True, 'quick': True,
+        'replays': [{'for': r'$^', 'driver': 'replay/c32', 'bin': 'replay', 'args': {'mode': 'search'}, 'thorough': True, 'quick': True, 'on_undecided': True,
+                     'history': 'generated lists of 1-3 config files over real settings, each spelled flat / nested / mixed, with scalar+prefix collisions and non-string array elements; oracle computed independently from the statement (paths denoted, later file wins, arrays appended without duplicates); 30 in-process loads + 3 child processes must agree; re-spelling must not change the result'},
+                    {'for': r'C32\.', 'driver': 'replay/c32', 'bin': 'replay', 'thorough': True, 'quick': True,
                      'history': 'load_configs_raw on 14 concrete file lists: the same array from two files, overlapping arrays, a flat key then the nested spelling (and the reverse), keys with empty segments; expected merged configuration compared'}],
         'level': 'proof',
         'level_text': 'On the real flatten_object / FlattenConfigObject::{parse,to_emmyrc} / to_emmyrc_json / merge_values and the merging tail of load_configs_raw (serde_json::Value and Map shimmed as data types with their documented operations), for every JSON value and every list of files: parse yields exactly the (dotted path -> leaf) pairs the value denotes, where a flat key "a.b" at any depth denotes the same path as the nested form (flat equals nested); to_emmyrc_json builds the nested form of the flat map for an ARBITRARY iteration order of the hash map and no other value qualifies (deterministic, order-independent); merge_values merges objects member by member, appends to an array exactly the later elements that are not yet present (no duplicates), and otherwise takes the later value; for file lists in which no file spells one setting twice and no setting lies below another one, the loaded configuration is the nested form of "for every path, the leaf of the LAST file that sets it" (later file wins whichever spelling each file uses).',
@@ -67,6 +69,8 @@ PROPS = {
     },
     'C33': {
         'units': [{'unit': 'c10_module', 'labels': [r'C33\.', r'^(?!.*\[C(09|10|20|33)\.).*$']}],
+        'replays': [{'for': r'$^', 'driver': 'replay/c33', 'bin': 'replay', 'args': {'mode': 'search'}, 'thorough': True, 'on_undecided': True,
+                     'history': 'generated workspaces (files and directories with the same name, same module name under different directories, module maps, custom patterns, both strict modes) and histories (add, resolve, remove a sibling / the last child, remove the target, re-add) against an oracle computed from the statement; each history repeated in fresh analyses and child processes'}],
         'level': 'proof',
         'level_text': 'Clause-level, on the real LuaModuleIndex (unit c10_module), for every index state satisfying the tree invariant module_wf (proved to be established by new/clear and preserved by every writer) and every path: add_module_by_module_path / add_module_by_path register the file at exactly the node reached from the root by the dotted parts of its module path, list it there once and leave every other registration untouched; exact_find_module / find_module_by_normalized_path / find_module_node return exactly the registration reached by the parts of the required path (the only file of the node, else the first non-hidden, else the first); find_module tries the exact path first and answers with it whenever it exists (exact before mapped before fuzzy); after remove(file) a path that only that file registered resolves to nothing (lemma_removed_is_unresolvable).',
         'level_note': 'NOT decided: the pattern / moduleMap layer (extract_module_path, replace_module_path: regex, Path and string splitting are uninterpreted functions of the state they read), fuzzy_find_module (no contract: the fuzzy fallback and its tie-break), go-to-definition on the require string and the inferred module type (handlers / inference). Determinism: the choice among several files registered under ONE module name is a function of the ORDER of registrations (the first visible file of the node): re-submitting an unchanged file moves it behind its duplicates (a.lua and a/init.lua: require "a" switches from a.lua to a/init.lua after a.lua is edited) - proved as lemma_resubmission_changes_choice from the exact contracts, recorded in DESIGN.md section 7 as an observation, no obligation of this check states history independence; split(\'.\') / join / to_string are std contracts (external_body helpers whose body is the call)',
@@ -74,7 +78,9 @@ PROPS = {
     },
     'C35': {
         'units': [{'unit': 'c35_export'}],
-        'replays': [{'for': r'output-independent-of-hash-order|every-main-module-listed', 'driver': 'replay/c35', 'bin': 'replay', 'thorough': True,
+        'replays': [{'for': r'$^', 'driver': 'replay/c35', 'bin': 'replay', 'args': {'mode': 'search'}, 'thorough': True, 'on_undecided': True,
+                     'history': 'generated workspaces (same-named modules in several main roots, types declared both in a library and in main, a symlinked directory): every declared main item exactly once, nothing from libraries, N exports in child processes byte-identical'},
+                    {'for': r'output-independent-of-hash-order|every-main-module-listed', 'driver': 'replay/c35', 'bin': 'replay', 'thorough': True,
                      'history': 'a generated workspace (14 types, 13 modules, 12 globals, one library) exported by emmylua_doc_cli::run_doc_cli in 8 child processes; outputs compared byte for byte; every declared item looked up in the JSON'}],
         'level': 'proof',
         'level_text': 'On the real export_types / export_modules / export_globals / export (iterator pipelines desugared to loops by named rules) and the real index accessors get_all_types / get_module_infos / get_all_global_decl_ids / is_main, for every index state satisfying index_wf: each accessor yields every stored value exactly once; the exported lists contain exactly one entry per class / enum / alias with a location in the main workspace, per main-workspace module that exports a value, per main-workspace global with a declaration and a cached type - nothing whose locations are all in library / std workspaces; and each list equals the listing of its selection in the canonical (strictly sorted, total) key order, i.e. it is a function of the index CONTENTS and independent of the iteration order of the hash maps (sort_by comparator proved to be that total order).',
